@@ -261,7 +261,7 @@ var porcModel = porcupine.Model{
 			if cur != 0 {
 				return out.ok && out.v == cur, st
 			}
-			return !out.ok && out.v == in.val, st
+			return !out.ok && (out.v == in.val || out.v == 0), st // not loaded: given value or zero, as in model.M
 		}
 		return false, st
 	},
